@@ -229,3 +229,19 @@ def same_obj(a, b, ignore=()):
         if not same_value(getattr(a, k), getattr(b, k)):
             return {'attribute': k, 'before': repr(getattr(a, k))[:120], 'after': repr(getattr(b, k))[:120]}
     return None
+
+
+# ------------------------------------------------------------------------------------------------
+# calls that rely on the library-wide default system
+def call_with_default(system, use_default, f, *args, **kw):
+    """f(*args, system=system, **kw); with use_default the system is made the library default
+    (Opts.set_as_default) and f is called WITHOUT a system argument; the previous default is restored."""
+    import pypulseq as pp
+    if not use_default:
+        return f(*args, system=system, **kw)
+    prev = pp.Opts.default
+    system.set_as_default()
+    try:
+        return f(*args, **kw)
+    finally:
+        prev.set_as_default()
